@@ -457,17 +457,14 @@ def target_mrq_fit_circuit():
             except (ValueError, TypeError) as ex:
                 err = ex
             tag = f"[{case}]"
-            if err is not None:
-                sess.check("post", [], z3.BoolVal(case == "fit given, equal but different circuit" and not made), 0, label=f"refused only for a FitResult of another circuit object{tag}")
-                continue
             fitted = fit.circuit if fit is not None else (fits[-1].circuit if fits else None)
-            ok = len(made) == 1 and fitted is not None
-            sess.check("post", [], z3.BoolVal(ok), 0, label=f"one result{tag}")
-            if not ok:
-                continue
-            sess.check("post", [], z3.BoolVal(used["tau_gamma"] == [fitted] and used["simulate"] == [fitted] and made[0].get("circuit") is fitted), 0,
-                       label=f"DRT, model impedance and stored circuit all come from the fitted circuit{tag}")
-            if fit is None:
+            refused_ok = err is not None and case == "fit given, equal but different circuit" and not made
+            flows_ok = err is None and len(made) == 1 and fitted is not None and used["tau_gamma"] == [fitted] and used["simulate"] == [fitted] and made[0].get("circuit") is fitted
+            ob = sess.check("post", [], z3.BoolVal(refused_ok or flows_ok), 0,
+                            label=f"{tag} either refused (only a FitResult of another circuit object may be), or DRT, model impedance and stored circuit all come from the fitted circuit")
+            if not (refused_ok or flows_ok):
+                ob.detail = f"error={err!r}; tau/gamma from {[getattr(c, 'name', c) for c in used['tau_gamma']]}, spectrum from {[getattr(c, 'name', c) for c in used['simulate']]}, fitted circuit: {getattr(fitted, 'name', fitted)}"
+            if err is None and fit is None:
                 sess.check("post", [], z3.BoolVal(len(fits) == 2 and used["fit_circuit"][0] == ("adjusted", ("deepcopy", arg)) and used["fit_circuit"][1] is fits[0].circuit and used["deepcopy"] == [arg]), 0,
                            label=f"the first fit starts from _adjust_initial_values(deepcopy(circuit)), the second from the first fit's circuit{tag}")
     return (f"{MRQ}:{qual}", MRQ, qual, run)
